@@ -443,3 +443,16 @@ Fixpoint drive_raw (relaxed : bool) (limit : N) (s : rst) (buf : bytes) (segs : 
         end
       else (ok, s1, rest, concat more)
   end.
+
+(* ---------- reply half of C62: the reply_header_max_size decision ---------- *)
+(* Parser::grabMimeBlock("Response", Config.maxReplyHeaderSize) as reached from
+   HttpStateData::processReplyHeader once the status line has been parsed:
+   fls = ResponseParser::firstLineSize(), buf = the bytes after the status line.
+   RHrelay n: the header block is the first n bytes of buf and the reply goes on to be processed;
+   RHtoobig: parseStatusCode = scHeaderTooLarge => ERR_TOO_BIG, 502 to the client, nothing relayed;
+   RHmore: wait for more bytes (the read buffer is capped at the same limit). *)
+Inductive resp_head := RHrelay (n : N) | RHtoobig | RHmore.
+Definition resp_head_decision (limit fls : N) (buf : bytes) : resp_head :=
+  let '(e, _) := headers_end buf in
+  if e =? 0 then (if limit <=? lenN buf + fls then RHtoobig else RHmore)
+  else if limit <=? fls + e then RHtoobig else RHrelay e.
